@@ -560,9 +560,15 @@ class Node:
 
         # construct mapping
         mapping_values = list()
-        for item in attr_node.seq_items():
+        for orig_item in attr_node.seq_items():
             # we've already checked that it's a SequenceNode above
-            key_node = item.get_attribute(key_attribute).yaml_node
+            key_node = orig_item.get_attribute(key_attribute).yaml_node
+            # The item may be referenced from elsewhere too, so don't
+            # change it, make a new node without the key attribute.
+            item = Node(yaml.MappingNode(
+                orig_item.yaml_node.tag, list(orig_item.yaml_node.value),
+                orig_item.yaml_node.start_mark, orig_item.yaml_node.end_mark,
+                orig_item.yaml_node.flow_style))
             item.remove_attribute(key_attribute)
             if (
                     value_attribute is not None and
@@ -807,11 +813,16 @@ class Node:
             return
 
         new_value = list()
-        for key_node, value_node in attr_node.yaml_node.value:
-            # filter out key atttribute
-            value_node.value = [
-                    (k, v) for k, v in value_node.value
-                    if k.value != key_attribute]
+        for key_node, orig_value_node in attr_node.yaml_node.value:
+            # filter out key atttribute, in a new node because this one
+            # may be referenced from elsewhere too
+            value_node = yaml.MappingNode(
+                    orig_value_node.tag,
+                    [
+                        (k, v) for k, v in orig_value_node.value
+                        if k.value != key_attribute],
+                    orig_value_node.start_mark, orig_value_node.end_mark,
+                    orig_value_node.flow_style)
 
             # replace mapping with value attribute, if it's the only one
             if (
